@@ -129,12 +129,63 @@ CLAIMED.update({
         design_ref="5 C18"),
 })
 
+
+ROUND_NOTE = ("Scratch-copy additions (cfg(kani)): shims `self.sample_recorder(gen_input, <closures>)` whose <closures> text is copied from "
+              "Bencher::bench_values / bench_refs, and an early return in bench_loop_threaded that records thread_count. Clock reads, fences "
+              "and Barrier::wait are replaced by loggers; threads' samples are taken one after the other (no pool, no interleavings). "
+              "Bounded: sample size 0/1/2, one sample per thread, T <= 2. Panics in the benchmarked function, real worker threads and the "
+              "per-input counter closure of the loop are undecided.")
+CLAIMED.update({
+    "C01": dict(
+        category="model_checking",
+        text=("Bounded Kani harnesses on the real sample_recorder (all three code paths: zero-sized fast path, deferred slots, inputs only) "
+              "with the real unsafe closures of the Bencher entry points: instrumented values drive an online monitor asserting that each "
+              "generated value is counted once before the start timestamp, passed to exactly one call, its output and (for the by-reference "
+              "forms) the value itself dropped exactly once after the end timestamp, output before input, all on the generating thread. Six "
+              "complete harnesses through the real entry points show the _local forms reach the loop with thread_count 1 for every "
+              "configured count and the other forms with the configured count."),
+        note=ROUND_NOTE,
+        technique="bounded Kani harnesses with an online monitor (bounded stand-in); complete Kani harnesses for the entry points",
+        design_ref="5 C01"),
+    "C02": dict(
+        category="model_checking",
+        text=("Same harnesses as C01, the assertions tagged C02: between the start and end timestamp of a sample only benchmarked calls "
+              "happen (no generation, counting, drop or barrier wait), a full fence directly precedes and a compiler fence directly follows "
+              "the start read (mirrored at the end), on two threads each waits twice before its start and once after its end, and the "
+              "allocation figures returned for the sample are exactly the tallies made inside the calls (generation and drops tally "
+              "different sizes and must not appear)."),
+        note=ROUND_NOTE,
+        technique="bounded Kani harnesses with an online monitor (bounded stand-in)",
+        design_ref="5 C02"),
+    "C14": dict(
+        category="model_checking",
+        text=("Kani: Divan::list_benches reaches run_action with a list action (complete; the repaired defect). Divan::run_tree_list on "
+              "group g { a, b[x, y] } with every ignore setting on group and benchmarks and every --ignored flag prints exactly one line per "
+              "case whose effective ignore passes RunIgnored::should_run, i.e. per case a run executes (bounded to that tree; the text of "
+              "the lines is not inspected)."),
+        note=("That list actions never invoke a benchmarked function rests on the short-circuit in run_bench_entry (read, not proved). The "
+              "line text, --exact round trip and clap parsing are undecided. Two genuine defects here were repaired by fix: commits."),
+        technique="Kani harnesses (one complete, one bounded) with std::io::_print replaced by a line counter",
+        design_ref="5 C14"),
+    "C16": dict(
+        category="model_checking",
+        text=("Bounded Kani harnesses on the real comparators: integer argument names (1-2 digits, optional minus) of different value compare "
+              "numerically under the name and kind attributes and never reach the textual comparison (the repaired defect); location order of "
+              "arguments is declaration order; each attribute list has the chosen attribute first and each once (complete). Thorough tier: "
+              "cmp_int / natural_cmp compare digit runs by value and natural_cmp is reflexive and antisymmetric on short strings."),
+        note=("str::parse::<f64> is stubbed to Err (CBMC cannot take dec2flt), so float names are not covered. The entry comparator "
+              "(EntryTree::cmp_by_attr), --sortr and 'sorting only permutes' are undecided."),
+        technique="bounded Kani harnesses (bounded stand-in only)",
+        design_ref="5 C16"),
+})
+
 NOT_APPLICABLE = {
     "C06": "concurrency (happens-before, all interleavings): Kani has no thread support and ICEs on the catch_unwind this code uses; Verus would need the pool rewritten onto its permission/atomic types, i.e. a model, which is a different family",
     "C07": "liveness / lost wake-ups under all interleavings: not expressible as a function contract with the installed verifiers",
     "C08": "barrier ordering across threads and panic propagation: concurrency, same reasons as C06",
     "C12": "proc-macro token generation and link-section constructors: neither verifier sees macro expansion of arbitrary programs or pre-main constructors",
     "C20": "stdout content of println!-based painter over arbitrary trees; no contract within reach decides the printed text",
+    "C17": "the label->argument dispatch lives in Divan::run_bench_entry (closure- and RefCell<TreePainter>-heavy, not brought under contract) and in args::bench, which conjures the zero-sized benchmark closure with mem::zeroed() (Kani flags the zero-sized memset) after BenchArgs::runner's OnceLock/Box::leak/TypeId plumbing; the macro-generated closure is outside both verifiers. Only util::slice_ptr_index(slice, &slice[i]) == i is checked (Kani, inside C05's unit), which is too little to claim the property",
 }
 PENDING = "check not built yet (work in progress; see DESIGN.md section 5 for the plan)"
 
